@@ -81,15 +81,13 @@ AvcCExpected(sps, pps) ==
     << 1, sps[2], sps[3], sps[4], 255, 225 >> \o BE16(Len(sps)) \o sps \o << 1 >> \o BE16(Len(pps)) \o pps
 
 AvcCSigs(prop, site, b, sps, pps) ==
-    IF Len(sps) < 4 \/ Len(sps) > 65535 \/ Len(pps) > 65535 THEN {}      \* profile bytes undefined / widths: C16
-    ELSE LET want == AvcCExpected(sps, pps) IN
-         IF b = want THEN {}
-         ELSE IF Len(b) < 8 THEN {LSig(prop, "AvcC", site, "truncated")}
-         ELSE (IF b[1] # 1 THEN {LSig(prop, "AvcC", site, "version")} ELSE {})
-         \cup (IF At(b, 1, 3) # At(want, 1, 3) THEN {LSig(prop, "AvcC", site, "profile-level")} ELSE {})
-         \cup (IF b[5] # 255 \/ b[6] # 225 THEN {LSig(prop, "AvcC", site, "reserved-bits")} ELSE {})
-         \cup (IF At(b, 6, 2 + Len(sps)) # BE16(Len(sps)) \o sps THEN {LSig(prop, "AvcC", site, "sps")} ELSE {})
-         \cup (IF Slice(b, 9 + Len(sps), Len(b)) # << 1 >> \o BE16(Len(pps)) \o pps THEN {LSig(prop, "AvcC", site, "pps")} ELSE {})
+    IF Len(sps) > 65535 \/ Len(pps) > 65535 THEN {}      \* lengths cannot be stored: C16
+    ELSE IF Len(b) < 8 THEN {LSig(prop, "AvcC", site, "truncated")}
+    ELSE (IF b[1] # 1 THEN {LSig(prop, "AvcC", site, "version")} ELSE {})
+    \cup (IF Len(sps) >= 4 /\ At(b, 1, 3) # << sps[2], sps[3], sps[4] >> THEN {LSig(prop, "AvcC", site, "profile-level")} ELSE {})   \* shorter SPS: bytes not judged
+    \cup (IF b[5] # 255 \/ b[6] # 225 THEN {LSig(prop, "AvcC", site, "reserved-bits")} ELSE {})
+    \cup (IF At(b, 6, 2 + Len(sps)) # BE16(Len(sps)) \o sps THEN {LSig(prop, "AvcC", site, "sps")} ELSE {})
+    \cup (IF Slice(b, 9 + Len(sps), Len(b)) # << 1 >> \o BE16(Len(pps)) \o pps THEN {LSig(prop, "AvcC", site, "pps")} ELSE {})
 
 (* hvcC arrays: parse from offset 22 (0-based); returns sequence of [type, res, nals] or <<-1>> *)
 RECURSIVE HvcNals(_, _, _)
